@@ -11,7 +11,7 @@ from .rules_link import hook_write
 RB = "frg::_redblack::tree_crtp_struct"
 
 MIRROR_RB = [("get_left", "get_right"), ("rotateLeft", "rotateRight"), ("insert_left", "insert_right"),
-             ("predecessor", "successor"), (".left", ".right"), ("pred", "succ")]
+             ("predecessor", "successor"), (".left", ".right")]
 
 
 def mirror(s, pairs):
@@ -107,6 +107,23 @@ class Ser:
         if k == "DeclRefExpr" and n.get("local") and n.d["d"] in self.once and n.d["d"] in self.inits \
                 and not getattr(self, "never", False) and (not self.sound or self.clean_use(n.d["d"], n)):
             return self._e(self.inits[n.d["d"]], depth + 1)
+        if k == "DeclRefExpr" and n.get("local") and n.d["d"] in self.once and n.d["d"] in self.inits \
+                and self.sound and depth < 30 and not getattr(self, "_in_snapshot", False):
+            # a snapshot that may be stale here: named after what it was a snapshot OF, never after its spelling
+            # (so that mirroring acts on predecessor()/successor() etc. and not on local variable names)
+            old_never = getattr(self, "never", False)
+            self.never = True
+            self._in_snapshot = True
+            try:
+                t = self._e(self.inits[n.d["d"]], depth + 1)
+            finally:
+                self.never = old_never
+                self._in_snapshot = False
+            if getattr(self, "opaque_snapshots", False) and n.d["d"] not in getattr(self, "arm_local", ()):
+                # arms of ONE function refer to the same snapshot object: it must not be touched by the mirror map
+                import zlib
+                return "@S%08x" % (zlib.crc32(t.encode()) & 0xffffffff)
+            return "@{%s}" % t
         if k == "BinaryOperator" or k == "CompoundAssignOperator":
             return "(%s %s %s)" % (n.op, self._e(n.children[0], depth + 1), self._e(n.children[1], depth + 1))
         if k == "UnaryOperator":
@@ -151,7 +168,7 @@ class Ser:
             for d in n.get("decls", []):
                 if not self.sound and d["d"] in self.once and "init" in d:
                     continue
-                out.append("decl %s%s;" % (d["n"], (" = " + self._e(self.fn.node(d["init"]))) if "init" in d else ""))
+                out.append("decl%s;" % ((" @= " + self._e(self.fn.node(d["init"]))) if "init" in d else (" " + d["n"])))
             return " ".join(out)
         if k == "ReturnStmt":
             v = n.child("val")
@@ -167,6 +184,7 @@ def check_mirror_if(ctx, rule, fn, pairs, label, only_left_tests=True):
     """Find top-level direction tests `if(get_left(X) == Y) A else B` (B not an if) and else-if chains whose
     conditions mirror each other; compare the arms under the mirror map."""
     ser = Ser(fn, sound=True)
+    ser.opaque_snapshots = True
     covered = set()
     n_pairs = 0
     body = fn.node(fn.d["body"])
@@ -176,6 +194,8 @@ def check_mirror_if(ctx, rule, fn, pairs, label, only_left_tests=True):
         if n.id in covered:
             return
         if n.kind == "IfStmt" and not is_assert_stmt(n) and n.get("else") is not None:
+            # snapshots declared inside the arms are mirrored with them; those taken before the split are shared
+            ser.arm_local = {d["d"] for x in n.walk() if x.kind == "DeclStmt" for d in x.get("decls", [])}
             c = n.child("cond")
             cs = ser.expr(c)
             e = n.child("else")
@@ -227,7 +247,7 @@ def effect_set(fn):
             for d in n.get("decls", []):
                 if "init" in d:
                     before_any_store = not any(fn.reaches(e, n.id) for e in first_store)
-                    out.add(((), "D %s := %s [evaluated before any store: %s]" % (d["n"], ser.expr(fn.node(d["init"])), before_any_store)))
+                    out.add(((), "D @{%s} [evaluated before any store: %s]" % (ser.expr(fn.node(d["init"])), before_any_store)))
     for n in fn.events():
         eff = None
         hw = None
@@ -280,9 +300,13 @@ def paths_with_nullfacts(fn, label, ser=None):
     """Exit states: frozenset of labels and ('null', expr)/('nonnull', expr) facts gathered from branches;
     infeasible combinations (same expr null and non-null) are pruned."""
     ser = ser or Ser(fn)
+    lab_cache, fact_cache = {}, {}
 
     def transfer(n, s):
-        l = label(n)
+        if n.id in lab_cache:
+            l = lab_cache[n.id]
+        else:
+            l = lab_cache[n.id] = label(n)
         if l is not None:
             if isinstance(l, list):
                 s = s | frozenset(l)
@@ -292,6 +316,16 @@ def paths_with_nullfacts(fn, label, ser=None):
         return [s]
 
     def refine(cond, truth, s):
+        key = (cond.id, truth)
+        if key in fact_cache:
+            facts = fact_cache[key]
+            if facts is None:
+                return []
+            for k, e in facts:
+                opp = ("nonnull" if k == "null" else "null", e)
+                if opp in s:
+                    return []
+            return [s | frozenset(facts)]
         facts = []
 
         def assume(a, v):
@@ -307,7 +341,9 @@ def paths_with_nullfacts(fn, label, ser=None):
             if (a.get("t") or "").endswith("*") or a.kind in ("DeclRefExpr", "CXXMemberCallExpr", "CallExpr", "MemberExpr"):
                 facts.append(("nonnull" if v else "null", ser.expr(a)))
         if not flow.refine_bool(cond, truth, lambda a: None, assume):
+            fact_cache[key] = None
             return []
+        fact_cache[key] = facts
         for k, e in facts:
             opp = ("nonnull" if k == "null" else "null", e)
             if opp in s:
@@ -327,12 +363,223 @@ def rb_fns(unit, agg="null_aggregator"):
     return out
 
 
+def _local_did(x):
+    x = std_unwrap(x)
+    if x.kind == "DeclRefExpr" and x.get("local"):
+        return x.d["d"]
+    return None
+
+
+def _dir_call(n):
+    """('left'|'right', kind) for get_left/get_right/insert_left/insert_right member calls, else None."""
+    if n.is_call() and n.callee and n.kind in ("CXXMemberCallExpr", "CallExpr"):
+        nm = n.callee["n"]
+        if nm in ("get_left", "insert_left"):
+            return "left", nm
+        if nm in ("get_right", "insert_right"):
+            return "right", nm
+    return None
+
+
+def _check_ordered_insert(g):
+    """tree_struct::insert: state = (variable the comparator last looked at, its verdict, values of bool locals).
+    Every get_/insert_left on that variable must happen under verdict true, every get_/insert_right under false; an
+    insert_left/right whose node was never compared is a violation.  The comparator must be called as (new, current)."""
+    problems = []
+    newp = g.params()[0]["d"]
+    cmps = [n for n in g.events() if n.kind == "CXXOperatorCallExpr" and n.callee and n.callee.get("op") == "()" and not n.get("inlined")]
+    if not cmps:
+        return ["no comparator call found"]
+
+    def deref_of(x):
+        x = std_unwrap(x)
+        if x.kind == "UnaryOperator" and x.op == "*":
+            return _local_did(x.children[0])
+        return None
+    for c in cmps:
+        a = c.args[1:]
+        if not (len(a) == 2 and deref_of(a[0]) == newp and deref_of(a[1]) not in (None, newp)):
+            problems.append("comparator called with %s, expected (new element, current node)" % [_ids(canon(x)) for x in a])
+    if problems:
+        return problems
+    cmp_ids = {c.id: deref_of(c.args[2]) for c in cmps}
+
+    def transfer(n, st):
+        var, res, bools = st
+        if n.id in cmp_ids:
+            return [(cmp_ids[n.id], "pending:%d" % n.id, bools)]
+        tgt, rhs = None, None
+        if n.kind == "BinaryOperator" and n.op == "=":
+            tgt, rhs = _local_did(n.children[0]), n.children[1]
+        elif n.kind == "DeclStmt":
+            out = st
+            for d in n.get("decls", []):
+                if "init" in d:
+                    out = assign(out, d["d"], g.node(d["init"]))
+            return [out]
+        dc = _dir_call(n)
+        if dc is not None and n.args:
+            x = _local_did(n.args[0])
+            side, nm = dc
+            if x is not None and x == var and res in (True, False):
+                if (side == "left") != res:
+                    problems.append("%s on the side where less(new, current) is %s, at %s" % (nm, res, n.loc))
+            elif nm.startswith("insert_"):
+                problems.append("%s at %s is not decided by a comparison with that node" % (nm, n.loc))
+        if tgt is not None:
+            return [assign(st, tgt, rhs)]
+        return [st]
+
+    def assign(st, tgt, rhs):
+        var, res, bools = st
+        b = dict(bools)
+        v = std_unwrap(rhs)
+        if v.kind == "CXXBoolLiteralExpr":
+            b[tgt] = bool(v.get("bv"))
+        else:
+            b.pop(tgt, None)
+        if tgt == var:
+            var, res = None, None
+        return (var, res, tuple(sorted(b.items())))
+
+    def refine(cond, truth, st):
+        var, res, bools = st
+        bd = dict(bools)
+
+        def val(x):
+            x = x.strip()
+            if x.id in cmp_ids:
+                if isinstance(res, str) and res == "pending:%d" % x.id:
+                    return None
+                return None
+            d = _local_did(x)
+            if d is not None and d in bd:
+                return int(bd[d])
+            return None
+        # the comparator's own branch fixes its verdict
+        c = cond.strip()
+        t = truth
+        while c.kind == "UnaryOperator" and c.op == "!":
+            c, t = c.children[0].strip(), not t
+        if c.id in cmp_ids and isinstance(res, str):
+            return [(var, t, bools)]
+        v = flow.sem_eval(cond, val)
+        if v is not None and bool(v) != truth:
+            return []
+        return [st]
+    flow.run(g, [(None, None, ())], transfer, refine, limit=100000)
+    return sorted(set(problems))
+
+
+def _check_positional_insert(g):
+    """tree_order_struct::insert(before, node).  State: before null?, and per cursor local its origin (root /
+    left child of before), whether it is null, whether its right child is known null / non-null.  Required:
+    insert_root only for (before null, root null); insert_left only as insert_left(before) when get_left(before) is
+    null; insert_right(x) only when x came from the proper origin by get_right steps alone and get_right(x) is null."""
+    problems = []
+    bp = g.params()[0]["d"]
+
+    def origin_of(e, st):
+        e = std_unwrap(e)
+        if e.is_call() and e.callee:
+            if e.callee["n"] == "get_root":
+                return ("root", None)
+            if e.callee["n"] == "get_left" and e.args and _local_did(e.args[0]) == bp:
+                return ("leftb", None)
+            if e.callee["n"] == "get_right" and e.args:
+                d = _local_did(e.args[0])
+                cur = dict(st[1]).get(d)
+                if cur is not None:
+                    return (cur[0], "nn" if cur[2] == "rnn" else None)
+            return ("other", None)
+        if e.kind == "ConditionalOperator":
+            c, tv, fv = e.children[0], e.children[1], e.children[2]
+            cd = _local_did(c)
+            if cd == bp and st[0] is not None:
+                return origin_of(fv if st[0] else tv, st)
+            return ("other", None)
+        d = _local_did(e)
+        if d is not None and d in dict(st[1]):
+            cur = dict(st[1])[d]
+            return (cur[0], cur[1])
+        return ("other", None)
+
+    def set_var(st, d, org, nul, rk=None):
+        m = dict(st[1])
+        m[d] = (org, nul, rk)
+        return (st[0], tuple(sorted(m.items(), key=lambda kv: kv[0])))
+
+    def transfer(n, st):
+        if n.kind == "DeclStmt":
+            for d in n.get("decls", []):
+                if "init" in d and (g.node(d["init"]).get("t") or "").rstrip().endswith("*"):
+                    org, nul = origin_of(g.node(d["init"]), st)
+                    st = set_var(st, d["d"], org, nul)
+            return [st]
+        if n.kind == "BinaryOperator" and n.op == "=":
+            d = _local_did(n.children[0])
+            if d is not None and (n.children[0].get("t") or "").rstrip().endswith("*"):
+                org, nul = origin_of(n.children[1], st)
+                return [set_var(st, d, org, nul)]
+            return [st]
+        if n.is_call() and n.callee and n.kind == "CXXMemberCallExpr" and n.callee["n"] in ("insert_root", "insert_left", "insert_right"):
+            nm = n.callee["n"]
+            m = dict(st[1])
+            if nm == "insert_root":
+                ok = st[0] is True and any(v[0] == "root" and v[1] == "null" for v in m.values())
+                if not ok:
+                    problems.append("insert_root at %s although `before` may be non-null or the tree non-empty" % n.loc)
+            elif nm == "insert_left":
+                x = _local_did(n.args[0]) if n.args else None
+                ok = x == bp and st[0] is False and any(v[0] == "leftb" and v[1] == "null" for v in m.values())
+                if not ok:
+                    problems.append("insert_left at %s is not insert_left(before, ...) with get_left(before) known null" % n.loc)
+            else:
+                x = _local_did(n.args[0]) if n.args else None
+                cur = m.get(x)
+                want = "root" if st[0] is True else ("leftb" if st[0] is False else None)
+                ok = cur is not None and want is not None and cur[0] == want and cur[1] == "nn" and cur[2] == "rnull"
+                if not ok:
+                    problems.append("insert_right at %s: its node is not the right-most node of %s (state %s)" % (
+                        n.loc, "the tree" if st[0] else "the left subtree of `before`", cur))
+        return [st]
+
+    def refine(cond, truth, st):
+        c, t = cond.strip(), truth
+        while c.kind == "UnaryOperator" and c.op == "!":
+            c, t = c.children[0].strip(), not t
+        if c.kind == "BinaryOperator" and c.op in ("==", "!=") and any(x.strip().kind == "CXXNullPtrLiteralExpr" or x.strip().get("nullc") for x in c.children):
+            other = [x for x in c.children if not (x.strip().kind == "CXXNullPtrLiteralExpr" or x.strip().get("nullc"))]
+            if other:
+                c, t = other[0].strip(), (t if c.op == "!=" else not t)
+        d = _local_did(c)
+        if d == bp:
+            if st[0] is not None and st[0] != (not t):
+                return []
+            return [((not t), st[1])]
+        m = dict(st[1])
+        if d is not None and d in m:
+            org, nul, rk = m[d]
+            if nul is not None and (nul == "nn") != t:
+                return []
+            return [set_var(st, d, org, "nn" if t else "null", rk)]
+        x = std_unwrap(c)
+        if x.is_call() and x.callee and x.callee["n"] == "get_right" and x.args:
+            d = _local_did(x.args[0])
+            if d in m:
+                org, nul, rk = m[d]
+                return [set_var(st, d, org, nul, "rnn" if t else "rnull")]
+        return [st]
+    flow.run(g, [(None, ())], transfer, refine, limit=100000)
+    return sorted(set(problems))
+
+
 def check_C06(ctx, unit):
     ctx.rule("M.rb-mirror", "red-black tree: rotateLeft/rotateRight and insert_left/insert_right have mirror-image guarded "
              "effects; inside fix_insert, fix_remove, replace_node, remove_half_leaf and the rotations every left/right case "
              "split has mirror-image arms (left<->right, rotateLeft<->rotateRight, predecessor<->successor)", 8)
     ctx.rule("H.rb-reset", "remove() leaves all five link fields of the removed node null on each of its three paths "
-             "(remove_half_leaf and replace_node reset their first argument on every path)", 3)
+             "(judged on remove() with its helpers folded in, and on each helper)", 2)
     ctx.rule("H.rb-parent-child", "every write of a child link h(X)->left/right = Y is accompanied on the same path by "
              "h(Y)->parent = X unless Y is null on that path", 5)
     ctx.rule("H.rb-list", "the predecessor/successor list is maintained as a doubly linked list: h(A)->successor = B is "
@@ -342,18 +589,32 @@ def check_C06(ctx, unit):
              "left child of before or right-most in its left subtree", 2)
     ctx.rule("R.rb-loops", "first() and both descents move to a child on every iteration", 3)
     fns = rb_fns(unit)
-    for need in ("rotateLeft", "rotateRight", "insert_left", "insert_right", "fix_insert", "fix_remove", "remove",
-                 "replace_node", "remove_half_leaf", "first"):
+    for need in ("rotateLeft", "rotateRight", "insert_left", "insert_right", "fix_insert", "fix_remove", "remove", "first"):
         if need not in fns:
             raise AnalysisBroken("anchor vanished: %s::%s" % (RB, need))
     f = lambda name: fns[name][0]
+    # remove() is judged together with its non-recursive private helpers (remove_half_leaf, replace_node, or whatever
+    # they are called / however they are split): the helpers are folded into one virtual function
+    from .inline import inline_variant
+    byd = {g.d["did"]: g for gs in fns.values() for g in gs}
+    rec_names = {"fix_remove", "fix_insert", "rotateLeft", "rotateRight", "aggregate_node", "aggregate_path", "remove"}
+
+    def sel_remove(cal):
+        g = byd.get(cal.get("did"))
+        return g is not None and g.get("access") in ("private", "protected") and g.name not in rec_names and (g.get("ret") or "") == "void" \
+            and len(g.params()) >= 2
+    remove_all = inline_variant(unit, f("remove"), sel_remove)
     check_mirror_fns(ctx, "M.rb-mirror", f("rotateLeft"), f("rotateRight"), MIRROR_RB, RB + "::rotateLeft ~ rotateRight")
     check_mirror_fns(ctx, "M.rb-mirror", f("insert_left"), f("insert_right"), MIRROR_RB, RB + "::insert_left ~ insert_right")
     total = 0
-    for name in ("fix_insert", "fix_remove", "replace_node", "remove_half_leaf", "rotateLeft", "rotateRight"):
-        total += check_mirror_if(ctx, "M.rb-mirror", f(name), MIRROR_RB, RB + "::" + name)
-    if total < 7:
-        raise AnalysisBroken("mirror case splits found: %d, expected at least 7" % total)
+    for name in ("fix_insert", "fix_remove", "replace_node", "remove_half_leaf", "rotateLeft", "rotateRight", "remove"):
+        if name in fns:
+            total += check_mirror_if(ctx, "M.rb-mirror", f(name), MIRROR_RB, RB + "::" + name)
+    for h in getattr(unit, "helpers", []):
+        if (h.owner_cls or "") == RB:
+            total += check_mirror_if(ctx, "M.rb-mirror", h, MIRROR_RB, RB + "::" + h.name + " (new helper)")
+    if total < 5:
+        raise AnalysisBroken("mirror case splits found: %d, expected at least 5" % total)
 
     # hook reset
     FIELDS = ("left", "right", "parent", "predecessor", "successor")
@@ -370,38 +631,40 @@ def check_C06(ctx, unit):
                     return "set." + hw[0]
             return None
         return lab
-    resets_first = set()
+    g = remove_all
+    p0 = g.params()[0]["d"]
+    ex = paths_with_nullfacts(g, reset_label(g, p0))
+    bad = []
+    for s_ in ex:
+        miss = [fl for fl in FIELDS if "reset." + fl not in s_]
+        if miss:
+            bad.append("a path leaves %s of the removed node set" % miss)
+    ctx.inst("H.rb-reset", "%s::remove (with its helpers folded in)" % RB, not bad and len(ex) >= 3, g.loc,
+             "; ".join(sorted(set(bad))) if bad else "all %d paths null the five link fields of the removed node" % len(ex), g)
     for name in ("remove_half_leaf", "replace_node"):
+        if name not in fns:
+            continue
         g = f(name)
         p0 = g.params()[0]["d"]
         ex = paths_with_nullfacts(g, reset_label(g, p0))
         bad = []
-        for s in ex:
-            miss = [fl for fl in FIELDS if "reset." + fl not in s]
+        for s_ in ex:
+            miss = [fl for fl in FIELDS if "reset." + fl not in s_]
             if miss:
                 bad.append("a path leaves %s of the removed node set" % miss)
         ctx.inst("H.rb-reset", "%s::%s" % (RB, name), not bad and bool(ex), g.loc,
                  "; ".join(sorted(set(bad))) if bad else "all %d paths null the five link fields of the first argument" % len(ex), g)
-        if not bad:
-            resets_first.add(g.did)
-    g = f("remove")
-    p0 = g.params()[0]["d"]
-
-    def lab(n):
-        if n.is_call() and n.callee and n.callee["did"] in resets_first and n.args:
-            a = std_unwrap(n.args[0])
-            if a.kind == "DeclRefExpr" and a.d["d"] == p0:
-                return "reset(node)"
-        return None
-    ex = paths_with_nullfacts(g, lab)
-    bad = [s for s in ex if "reset(node)" not in s]
-    ctx.inst("H.rb-reset", "%s::remove" % RB, not bad and len(ex) >= 3, g.loc,
-             "%d of %d paths do not pass the removed node to a resetting helper" % (len(bad), len(ex)) if bad else
-             "all %d paths hand the removed node to remove_half_leaf/replace_node as the node to reset" % len(ex), g)
 
     # parent/child and list pairing
-    for name in ("rotateLeft", "rotateRight", "insert_left", "insert_right", "replace_node", "remove_half_leaf"):
-        g = f(name)
+    for name in ("rotateLeft", "rotateRight", "insert_left", "insert_right", "replace_node", "remove_half_leaf", "remove+helpers"):
+        if name == "remove+helpers":
+            if "replace_node" in fns and "remove_half_leaf" in fns:
+                continue          # judged compositionally through the helpers above
+            g = remove_all
+        elif name in fns:
+            g = f(name)
+        else:
+            continue
         ser = Ser(g)
 
         def lab(n, ser=ser):
@@ -431,74 +694,21 @@ def check_C06(ctx, unit):
                         bad_l.append("h(%s)->predecessor = %s without h(%s)->successor = %s" % (x, v, v, x))
         ctx.inst("H.rb-parent-child", "%s::%s" % (RB, name), not bad_pc and n_pc > 0, g.loc,
                  "; ".join(sorted(set(bad_pc))[:3]) if bad_pc else "%d child-link writes over %d paths, all paired" % (n_pc, len(ex)), g)
-        if name in ("insert_left", "insert_right", "replace_node", "remove_half_leaf"):
+        if name in ("insert_left", "insert_right", "replace_node", "remove_half_leaf", "remove+helpers"):
             ctx.inst("H.rb-list", "%s::%s" % (RB, name), not bad_l and n_l > 0, g.loc,
                      "; ".join(sorted(set(bad_l))[:3]) if bad_l else "%d list-link writes over %d paths, all paired" % (n_l, len(ex)), g)
 
-    # descent
+    # descent -- both decided by small path-sensitive interpretations of the function, not by the shape of its branches
     ts = [x for x in unit.functions if x.owner_cls == "frg::_redblack::tree_struct" and x.name == "insert"]
     for g in ts[:1]:
-        cmp_calls = [n for n in g.events() if n.kind == "CXXOperatorCallExpr" and n.callee and n.callee.get("op") == "()"]
-        problems = []
-        if len(cmp_calls) != 1:
-            problems.append("expected one comparator call, found %d" % len(cmp_calls))
-        else:
-            c = cmp_calls[0]
-            a = [std_unwrap(x) for x in c.args[1:]]
-            newp = g.params()[0]["d"]
-            def deref_of(x):
-                x = std_unwrap(x)
-                if x.kind == "UnaryOperator" and x.op == "*":
-                    y = std_unwrap(x.children[0])
-                    return y.d["d"] if y.kind == "DeclRefExpr" else None
-                return None
-            cursor = {std_unwrap(n.children[0]).d["d"] for n in g.events() if n.kind == "BinaryOperator" and n.op == "="
-                      and std_unwrap(n.children[0]).kind == "DeclRefExpr" and std_unwrap(n.children[1]).is_call()
-                      and std_unwrap(n.children[1]).callee and std_unwrap(n.children[1]).callee["n"] in ("get_left", "get_right")}
-            if not (len(a) == 2 and deref_of(a[0]) == newp and deref_of(a[1]) in cursor):
-                problems.append("comparator called with %s, expected (new element, current node)" % [_ids(canon(x)) for x in a])
-            for n in g.events():
-                if n.is_call() and n.callee and n.callee["n"] in ("insert_left", "insert_right", "get_left", "get_right") and \
-                        g.parent(n) is not None:
-                    side = None
-                    for cond, truth in flow.facts_at(g, n.id):
-                        if cond.strip().id == c.id:
-                            side = truth
-                    if side is None:
-                        continue
-                    want = "left" if side else "right"
-                    if want not in n.callee["n"]:
-                        problems.append("%s used on the comparator-%s side at %s" % (n.callee["n"], side, n.loc))
+        problems = _check_ordered_insert(g)
         ctx.inst("E.rb-descent", "frg::_redblack::tree_struct::insert", not problems, g.loc,
-                 "; ".join(problems) if problems else "less(new, current) true -> left, false -> right", g)
+                 "; ".join(problems[:3]) if problems else "less(new, current) true -> left, false -> right (every path, any control-flow shape)", g)
     to = [x for x in unit.functions if x.owner_cls == "frg::_redblack::tree_order_struct" and x.name == "insert"]
     for g in to[:1]:
-        bp = g.params()[0]["d"]
-        problems = []
-        for n in g.events():
-            if n.is_call() and n.callee and n.callee["n"] in ("insert_left", "insert_right", "insert_root") and n.kind == "CXXMemberCallExpr":
-                isnull = None
-                for cond, truth in flow.facts_at(g, n.id):
-                    c, t = cond.strip(), truth
-                    while c.kind == "UnaryOperator" and c.op == "!":
-                        c, t = c.children[0].strip(), not t
-                    if c.kind == "DeclRefExpr" and c.d["d"] == bp:
-                        isnull = not t
-                nm = n.callee["n"]
-                a0 = _ids(canon(n.args[0])) if n.args else ""
-                if isnull is True and nm == "insert_left":
-                    problems.append("before == null path inserts to the left at %s" % n.loc)
-                a0n = std_unwrap(n.args[0]) if n.args else None
-                if isnull is False and nm == "insert_left" and not (a0n is not None and a0n.kind == "DeclRefExpr" and a0n.d["d"] == bp):
-                    problems.append("insert_left(%s, ...) on the before != null path" % a0)
-                if isnull is False and nm == "insert_root":
-                    problems.append("insert_root on the before != null path")
-        starts = [std_unwrap(i) for d, i in RA.local_inits(g).items()]
-        if not any(x.is_call() and x.callee and x.callee["n"] == "get_left" and x.args and std_unwrap(x.args[0]).kind == "DeclRefExpr"
-                   and std_unwrap(x.args[0]).d["d"] == bp for x in starts):
-            problems.append("the before != null path does not start at get_left(before)")
+        problems = _check_positional_insert(g)
         ctx.inst("E.rb-descent", "frg::_redblack::tree_order_struct::insert", not problems, g.loc,
-                 "; ".join(problems) if problems else "null -> right-most; else left child of `before` or right-most of its left subtree", g)
+                 "; ".join(problems[:3]) if problems else "null -> right-most; else left child of `before` or right-most of its left subtree", g)
     # loops
     from .rules_parse import check_loop_progress
     for g in [f("first")] + ts[:1] + to[:1]:
@@ -667,49 +877,108 @@ def check_C07(ctx, unit, thorough=False):
                     break
     ctx.inst("Q.prune-sound", IT + "::_for_overlaps_in_subtree: no left hit => nothing on the right", bad is None, prc.loc,
              bad or "%d order types of (left witness, query, right node)" % cnt, g)
-    # structure (syntactic containment: inside the then-arm of an if its condition holds)
-    problems = []
+    # structure, decided by a path-sensitive interpretation over small concrete order types: for every valuation of
+    # (lo, hi, lb, ub, subtree_max of the left child, left present?, right present?) and every outcome of the recursive
+    # searches, the walk through the CFG must satisfy:
+    #   (a) the callback runs iff the node overlaps the query;
+    #   (b) the result is  overlap  or  (left searched and hit)  or  (right searched and hit);
+    #   (c) the left subtree is skipped only when the guard (left && lb <= subtree_max) fails; the right subtree is
+    #       skipped only when the node does not overlap, the guard holds and the left search reported no hit;
+    #   (d) an absent child is never searched.
+    problems = set()
+    LEFT, RIGHT = "get_left(%s)" % NODE, "get_right(%s)" % NODE
+    recs = [n for n in g.events() if n.is_call() and n.callee and n.callee["did"] == g.did]
+    if len(recs) < 3:
+        raise AnalysisBroken("anchor vanished: recursive searches in _for_overlaps_in_subtree (found %d)" % len(recs))
+    side_of = {}
+    for n in recs:
+        t = ser.expr(n.args[-1])
+        side_of[n.id] = "L" if t == LEFT else ("R" if t == RIGHT else "?")
+    if "?" in side_of.values():
+        problems.add("a recursive search is not on get_left(node) / get_right(node)")
 
-    def inside(n, region):
-        return region is not None and any(x.id == n.id for x in region.walk())
-    recs = [n for n in g.all_nodes() if n.is_call() and n.callee and n.callee["did"] == g.did]
-    rec_left = [n for n in recs if ser.expr(n.args[-1]) == "get_left(%s)" % NODE]
-    rec_right = [n for n in recs if ser.expr(n.args[-1]) == "get_right(%s)" % NODE]
-    if len(recs) != 5 or len(rec_left) != 2 or len(rec_right) != 3:
-        problems.append("recursive calls: %d (left %d, right %d), expected 5 (2, 3)" % (len(recs), len(rec_left), len(rec_right)))
-    hit_arm, guard_arm, other_arm = ov.child("then"), pr[0].child("then"), (pr[0].child("else") if pr[0].get("else") is not None else None)
-    if not inside(cb, hit_arm):
-        problems.append("callback is not inside the overlap arm")
-    if not (any(inside(n, hit_arm) for n in rec_left) and any(inside(n, hit_arm) for n in rec_right)):
-        problems.append("an overlapping node does not search both children")
-    rets_true = [r for r in g.all_nodes() if r.kind == "ReturnStmt" and r.child("val") is not None and r.child("val").strip().cv() == 1]
-    rets_false = [r for r in g.all_nodes() if r.kind == "ReturnStmt" and r.child("val") is not None and r.child("val").strip().cv() == 0]
-    if not any(inside(r, hit_arm) for r in rets_true):
-        problems.append("the overlap arm does not return true")
-    # ifs whose condition is a recursive search
-    hit_ifs = [n for n in body.walk() if n.kind == "IfStmt" and std_unwrap(n.child("cond")).is_call()
-               and std_unwrap(n.child("cond")).callee and std_unwrap(n.child("cond")).callee["did"] == g.did]
-    for r in rets_true:
-        if inside(r, hit_arm):
+    def run_case(lo, hi, lb, ub, m, L, R):
+        # state: (visitedL, resL, visitedR, resR, cb, rv)
+        def mkval(st):
+            def val(x):
+                x = x.strip()
+                if x.id in side_of:
+                    return {"L": st[1], "R": st[3]}.get(side_of[x.id])
+                t = ser.expr(x)
+                if t == LO:
+                    return lo
+                if t == HI:
+                    return hi
+                if t == M:
+                    return m if L else None
+                if t == LEFT:
+                    return L
+                if t == RIGHT:
+                    return R
+                xs = std_unwrap(x)
+                if xs.kind == "DeclRefExpr" and xs.get("dk") == "ParmVar":
+                    if xs.n == LBN:
+                        return lb
+                    if xs.n == UBN:
+                        return ub
+                return None
+            return val
+
+        def transfer(n, st):
+            vl, rl, vr, rr, cbc, rv = st
+            if n.id in side_of:
+                sd = side_of[n.id]
+                if sd == "L":
+                    if not L:
+                        problems.add("the left child is searched although it is absent (%s)" % n.loc)
+                        return []
+                    return [(True, 1, vr, rr, cbc, rv), (True, 0, vr, rr, cbc, rv)]
+                if sd == "R":
+                    if not R:
+                        problems.add("the right child is searched although it is absent (%s)" % n.loc)
+                        return []
+                    return [(vl, rl, True, 1, cbc, rv), (vl, rl, True, 0, cbc, rv)]
+            if n.id == cb.id:
+                return [(vl, rl, vr, rr, True, rv)]
+            if n.kind == "ReturnStmt" and n.child("val") is not None:
+                v = flow.sem_eval(n.child("val"), mkval(st))
+                return [(vl, rl, vr, rr, cbc, v)]
+            return [st]
+
+        def refine(cond, truth, st):
+            v = flow.sem_eval(cond, mkval(st))
+            if v is None or bool(v) == truth:
+                return [st]
+            return []
+        _, ex = flow.run(g, [(False, None, False, None, False, None)], transfer, refine, limit=200000)
+        ovl = spec(lo, hi, lb, ub)
+        gd = bool(L) and lb <= m
+        for (vl, rl, vr, rr, cbc, rv) in ex:
+            where = "lo=%d hi=%d lb=%d ub=%d max(left)=%d left=%d right=%d" % (lo, hi, lb, ub, m, L, R)
+            if cbc != ovl:
+                problems.add("callback %s although the node %s the query (%s)" % ("runs" if cbc else "does not run", "overlaps" if ovl else "misses", where))
+            want = ovl or (vl and bool(rl)) or (vr and bool(rr))
+            if rv is None or bool(rv) != bool(want):
+                problems.add("returns %s, expected %s = overlap or a hit below (%s)" % (rv, want, where))
+            if L and not vl and (gd or ovl):
+                problems.add("left subtree skipped although %s (%s)" % ("the node overlaps" if ovl else "the guard holds", where))
+            if R and not vr and not (not ovl and gd and vl and not rl):
+                problems.add("right subtree skipped without a failed guarded left search (%s)" % where)
+        return len(ex)
+    n_cases = n_paths = 0
+    rng = range(3)
+    for lo, hi, lb, ub in itertools.product(rng, repeat=4):
+        if lo > hi or lb > ub:
             continue
-        if not any(inside(r, h.child("then")) for h in hit_ifs):
-            problems.append("return true at %s without a callback or a successful recursive search" % r.loc)
-    for n in rec_right:
-        if inside(n, hit_arm):
-            continue
-        if inside(n, guard_arm):
-            lh = [h for h in hit_ifs if inside(h, guard_arm) and ser.expr(std_unwrap(h.child("cond")).args[-1]) == "get_left(%s)" % NODE]
-            if not any(inside(n, h.child("then")) for h in lh):
-                problems.append("right subtree searched at %s although the left search did not report a hit" % n.loc)
-        elif not inside(n, other_arm):
-            problems.append("right subtree searched at %s outside the guard's case split" % n.loc)
-    for n in rec_left:
-        if not (inside(n, hit_arm) or inside(n, guard_arm)):
-            problems.append("left subtree searched at %s without the guard" % n.loc)
-    if not rets_false:
-        problems.append("no `return false` for the no-hit case")
+        for L, R in ((0, 0), (0, 1), (1, 0), (1, 1)):
+            for m in (rng if L else (0,)):
+                n_cases += 1
+                n_paths += run_case(lo, hi, lb, ub, m, L, R)
+                if len(problems) > 6:
+                    break
     ctx.inst("E.search-structure", IT + "::_for_overlaps_in_subtree", not problems, g.loc,
-             "; ".join(problems) if problems else "callback under the test; both children on a hit; left under the guard; right after a left hit or when the guard fails", g)
+             "; ".join(sorted(problems)[:3]) if problems else
+             "%d valuations x recursive outcomes (%d paths): callback iff overlap; result = overlap or hit below; subtrees skipped only as the guard allows" % (n_cases, n_paths), g)
     # aggregate after relink: rbtree instantiated with the interval aggregator
     fns = {}
     for f in unit.functions:
@@ -717,8 +986,22 @@ def check_C07(ctx, unit, thorough=False):
             fns.setdefault(f.name, []).append(f)
     if "rotateLeft" not in fns:
         raise AnalysisBroken("anchor vanished: red-black tree instantiated with the interval aggregator")
-    for name in ("rotateLeft", "rotateRight", "insert_left", "insert_right", "replace_node", "remove_half_leaf"):
-        f = fns[name][0]
+    units_ = [(name, fns[name][0]) for name in ("rotateLeft", "rotateRight", "insert_left", "insert_right", "replace_node", "remove_half_leaf")
+              if name in fns]
+    if "replace_node" not in fns or "remove_half_leaf" not in fns:
+        # a helper was folded into remove(): judge remove() with its remaining non-recursive helpers folded in as well
+        from .inline import inline_variant
+        byd = {g.d["did"]: g for gs in fns.values() for g in gs}
+        rec_names = {"fix_remove", "fix_insert", "rotateLeft", "rotateRight", "aggregate_node", "aggregate_path", "remove"}
+
+        def sel_remove(cal):
+            g = byd.get(cal.get("did"))
+            return g is not None and g.get("access") in ("private", "protected") and g.name not in rec_names and (g.get("ret") or "") == "void" \
+                and len(g.params()) >= 2
+        if "remove" not in fns:
+            raise AnalysisBroken("anchor vanished: %s::remove [interval aggregator]" % RB)
+        units_.append(("remove (with its helpers folded in)", inline_variant(unit, fns["remove"][0], sel_remove)))
+    for name, f in units_:
         sr = Ser(f)
 
         def lab(n, sr=sr, f=f):
@@ -728,6 +1011,8 @@ def check_C07(ctx, unit, thorough=False):
                 if v == "null":
                     return None
                 return ("need", sr.expr(hw[1]), n.id)
+            if hw and hw[1] is not None and hw[0] == "parent":
+                return ("pw", sr.expr(hw[1]), sr.expr(hw[2]))
             if n.is_call() and n.callee and n.callee["n"] in ("aggregate_node", "aggregate_path") and n.args:
                 return ("agg", sr.expr(n.args[0]), n.id)
             return None
@@ -750,11 +1035,23 @@ def check_C07(ctx, unit, thorough=False):
                 an = [a for a in aggs if a[1] == "n"]
                 if au and an and not f.reaches(au[0][2], an[0][2]):
                     bad.append("the rotated-down node must be aggregated before its new parent")
-            if name == "replace_node":
-                ar = [a for a in aggs if a[1] == "replacement"]
-                ap = [a for a in aggs if a[1] == "get_parent(node)"]
-                if ar and ap and not f.reaches(ar[0][2], ap[0][2]):
-                    bad.append("the replacement must be aggregated before walking up from its parent")
+            if name == "replace_node" or name.startswith("remove ("):
+                # a node spliced in under a new parent is refreshed itself (aggregate_node) before the walk up from that
+                # parent (aggregate_path) starts: the walk stops at the first unchanged ancestor
+                calls_ = {a[2]: f.node(a[2]).callee["n"] for a in aggs}
+                an_ = [a for a in aggs if calls_[a[2]] == "aggregate_node"]
+                ap_ = [a for a in aggs if calls_[a[2]] == "aggregate_path"]
+                pws = [x for x in s if isinstance(x, tuple) and x[0] == "pw"]
+                for a1 in an_:
+                    newparents = {v for (_, x_, v) in pws if x_ == a1[1]}
+                    for a2 in ap_:
+                        if a2[1] not in newparents:
+                            continue
+                        if f.reaches(a2[2], a1[2]) and not f.reaches(a1[2], a2[2]):
+                            bad.append("aggregate_path at %s runs before aggregate_node at %s on a path" % (f.node(a2[2]).loc, f.node(a1[2]).loc))
+                if name == "replace_node" and (not an_ or not ap_):
+                    bad.append("replace_node must refresh the replacement (aggregate_node) and then walk up from its new parent "
+                               "(aggregate_path): found %d / %d calls on a path" % (len(an_), len(ap_)))
         ctx.inst("H.aggregate-after-relink", "%s::%s [interval aggregator]" % (RB, name), not bad and n_need > 0, f.loc,
                  "; ".join(sorted(set(bad))[:3]) if bad else "%d child-link writes, each followed by re-aggregation" % n_need, f)
     for f in fns.get("aggregate_path", [])[:1]:
